@@ -359,10 +359,15 @@ impl SortedUintVec {
 
         let byte_offset = bit_offset / 8;
         let bit_shift = bit_offset % 8;
-        let bytes_needed = ((bit_shift + bit_width as usize + 7) / 8).min(8);
+        let bytes_needed = (bit_shift + bit_width as usize + 7) / 8;
         
         if byte_offset + bytes_needed > data.len() {
             return Err(ZiporaError::invalid_data("bit extraction out of bounds"));
+        }
+
+        // A field that spans 9 bytes does not fit the 8-byte loads of the BMI2 paths
+        if bytes_needed > 8 {
+            return self.extract_bits_portable(data, bit_offset, bit_width);
         }
 
         // Use enhanced BMI2 instructions if available for efficient bit extraction
@@ -465,18 +470,19 @@ impl SortedUintVec {
         let byte_offset = bit_offset / 8;
         let bit_shift = bit_offset % 8;
         
-        let mut value = 0u64;
-        let bytes_to_read = ((bit_shift + bit_width as usize + 7) / 8).min(8);
+        // Up to 9 bytes: a 58..=64 bit field need not start on a byte boundary
+        let mut wide = 0u128;
+        let bytes_to_read = (bit_shift + bit_width as usize + 7) / 8;
         
         // Read bytes and construct value
         for i in 0..bytes_to_read {
             if byte_offset + i < data.len() {
-                value |= (data[byte_offset + i] as u64) << (i * 8);
+                wide |= (data[byte_offset + i] as u128) << (i * 8);
             }
         }
         
         // Shift and mask to extract desired bits
-        value >>= bit_shift;
+        let mut value = (wide >> bit_shift) as u64;
         if bit_width < 64 {
             value &= (1u64 << bit_width) - 1;
         }
@@ -824,8 +830,9 @@ impl SortedUintVecBuilder {
             value
         };
 
-        // Store bits using bit manipulation
-        let shifted_value = masked_value << bit_shift;
+        // Store bits using bit manipulation (a field that does not start on a
+        // byte boundary can span 9 bytes, so shift in 128 bits)
+        let shifted_value = (masked_value as u128) << bit_shift;
         
         for i in 0..bytes_needed {
             if byte_offset + i < data.len() {
@@ -868,8 +875,9 @@ impl SortedUintVecBuilder {
             value
         };
 
-        // Store bits using bit manipulation
-        let shifted_value = masked_value << bit_shift;
+        // Store bits using bit manipulation (a field that does not start on a
+        // byte boundary can span 9 bytes, so shift in 128 bits)
+        let shifted_value = (masked_value as u128) << bit_shift;
         
         for i in 0..bytes_needed {
             if byte_offset + i < data.len() {
